@@ -155,7 +155,7 @@ func (x *rxCtx) term(t *T) (string, bool) {
 		r, ok2 := x.term(t.Kids[1])
 		return "(?:" + l + "|" + r + ")", ok1 && ok2
 	case LOOP:
-		if nullableT(t.Kids[0]) || (t.Max != -1 && t.Max < t.Min) {
+		if nullableT(t.Kids[0]) || (t.Max != -1 && t.Max < t.Min) || t.S != "" {
 			return "", false
 		}
 		b, ok := x.term(t.Kids[0])
